@@ -71,6 +71,8 @@ def gen_instance(rng, iid, family='random', nmax_geos=6):
   n_test = rng.choice([1, 2, 2, 3, 3, 4, 4, 7])
   npm = rng.choice([90, n_dates, max(n_test + 3, n_dates - rng.randint(1, 5)), n_test + 3 + rng.randint(0, 4)])
   npm = max(npm, n_test + 3)
+  if npm == 90 and iid % 3 == 0:
+    npm = n_dates + 1 + (iid // 3) % max(1, n_dates - 2)      # a window somewhat longer than the panel
   if family == 'longtest':
     # long calendars with a test period of about a hundred time points (e.g. a quarter of daily data)
     n = rng.choice([2, 2, 3])
